@@ -85,9 +85,15 @@ class Ctx:
     def _java(self, heap_gb, gcthreads):
         # small heaps + serial GC for single-worker runs: first touch of memory is expensive in this VM
         if gcthreads <= 1:
-            return ["java", "-XX:+UseSerialGC", "-Xmx%dg" % heap_gb, "-Xss512m", "-cp", TLA_CP]
+            return ["java", "-XX:+UseSerialGC", "-Xmx%dg" % heap_gb, "-Xss512m", "-Djava.io.tmpdir=" + self.jtmp(), "-cp", TLA_CP]
         return ["java", "-XX:+UseParallelGC", "-XX:ParallelGCThreads=%d" % gcthreads,
-                "-Xmx%dg" % heap_gb, "-Xss512m", "-cp", TLA_CP]
+                "-Xmx%dg" % heap_gb, "-Xss512m", "-Djava.io.tmpdir=" + self.jtmp(), "-cp", TLA_CP]
+
+    def jtmp(self):
+        # TLC leaves an empty tlc-<n> directory in java.io.tmpdir per run: keep them inside the scratch directory
+        d = os.path.join(self.scratch, "jtmp")
+        os.makedirs(d, exist_ok=True)
+        return d
 
     def tlc(self, module, cfg=None, workers=1, heap_gb=3, timeout=600, env=None, extra=(), deque=False, quiet=True):
         """Run TLC on spec/<module>.tla; returns dict(rc, out, generated, distinct, depth, ok)."""
